@@ -503,8 +503,10 @@ class ModuleNormalizer:
                 while i < len(stmts):
                     s = stmts[i]
                     i += 1
-                    if not isinstance(s, (ast.Return, ast.Assign, ast.AugAssign, ast.Expr)) or getattr(s, "value", None) is None or isinstance(s.value, ast.Call):
+                    if not isinstance(s, (ast.Return, ast.Assign, ast.AugAssign, ast.Expr)) or getattr(s, "value", None) is None:
                         continue
+                    if isinstance(s.value, ast.Call) and self._resolve(s.value, q, cls) is not None:
+                        continue  # a direct call: handled at statement position below
                     if any(isinstance(n, (ast.Lambda, ast.ListComp, ast.SetComp, ast.DictComp, ast.GeneratorExp, ast.IfExp, ast.BoolOp, ast.NamedExpr, ast.Await, ast.Yield, ast.YieldFrom)) for n in ast.walk(s.value)):
                         continue
                     calls = [n for n in ast.walk(s.value) if isinstance(n, ast.Call)]
@@ -512,7 +514,8 @@ class ModuleNormalizer:
                     if len(hc) != 1:
                         continue
                     inside = {id(n) for n in ast.walk(hc[0])}
-                    if any(id(c) not in inside for c in calls):
+                    # other calls may only be the ones the helper's result is an argument of (they run afterwards)
+                    if any(id(c) not in inside and not any(x is hc[0] for x in ast.walk(c)) for c in calls):
                         continue
                     h = self._resolve(hc[0], q, cls)[0]
                     if _expr_of_body(h.body) is not None or _is_generator(h) or h is node or any(isinstance(n, ast.While) for n in ast.walk(h)):
